@@ -274,7 +274,15 @@ def firstErr : List Res → Option Res
 /-- what the shell answers for `exit code` when it is not cancelled -/
 def shellRes : Cmd → Res
   | .shell 0 _ _ => .ok
-  | .shell n _ _ => .exit n
+  | .shell n _ _ => if n % 1000 = 0 then .ok else .exit (n % 1000)
+  | .call _ _ => .ok
+
+/-- A shell command whose code is `1000 + n` or `2000 + n` is *flaky*: the harness renders it
+so that, within one invocation, its first execution exits `n` and every later one `0`
+(`2000 + n`: the other way round).  Which of the two an activation gets depends on the
+interleaving, so the acceptor allows both; an ordinary command has one possible result. -/
+def altRes : Cmd → Res
+  | .shell n ie d => if n ≥ 1000 then .ok else shellRes (.shell n ie d)
   | .call _ _ => .ok
 
 /-! ### the transition function -/
@@ -413,7 +421,7 @@ def stepLocal (F : Flags) (o : Obs) (x : Act) (ev : Ev) : Option (Act × Eff) :=
     match x.rest with
     | cmd :: _ =>
       if r = .ctx && !o.cancelled () then none else
-      if r ≠ .ctx && r ≠ .generic && r ≠ shellRes cmd then none else
+      if r ≠ .ctx && r ≠ .generic && r ≠ shellRes cmd && r ≠ altRes cmd then none else
       some (x.afterCmd cmd r, .none)
     | [] => none
   | .callRelease i d, .body =>
@@ -448,7 +456,7 @@ def stepLocal (F : Flags) (o : Obs) (x : Act) (ev : Ev) : Option (Act × Eff) :=
   | .cmdEnd i r, .inShell j true =>
     if i ≠ j then none else
     match x.def_.cmds[j]? with
-    | some cmd => if r ≠ .generic && r ≠ shellRes cmd then none else some (x.afterDefer, .none)
+    | some cmd => if r ≠ .generic && r ≠ shellRes cmd && r ≠ altRes cmd then none else some (x.afterDefer, .none)
     | none => none
   | .callRelease i d, .defers =>
     match x.stack with
